@@ -224,6 +224,12 @@ func (e *Encoder) loopHeader(fr *frame, li *loopInfo, reach *Term, stIn *State) 
 				stH.m[cl] = old
 				continue
 			}
+			if _, modified := mod.classes[cl]; !modified && mod.edges > 0 && mod.kept[cl] == mod.edges {
+				// explicitly preserved across the havoc on every path round the loop (e.g. ghost state
+				// that the callee cannot reach)
+				stH.m[cl] = old
+				continue
+			}
 			f := c.Fresh(fmt.Sprintf("L%d.%s", li.idx, cl), old.S)
 			stH.m[cl] = f
 			ls.syms = append(ls.syms, f)
@@ -370,6 +376,8 @@ func (e *Encoder) nextEpoch() int {
 type modSet struct {
 	all     bool
 	classes map[string]map[*Term]bool // class -> outer store indices (nil = unknown shape)
+	kept    map[string]int            // classes carried unchanged to a back edge although memory was havocked (count of back edges)
+	edges   int
 }
 
 // dryRun executes the loop body once with havocked phis and reports which
@@ -439,12 +447,17 @@ func (e *Encoder) dryRun(fr *frame, li *loopInfo, stIn *State, entry map[*ssa.Ph
 				if out.epoch != base.epoch {
 					ms.all = true
 				}
+				ms.edges++
 				for cl, t := range out.m {
 					old, ok := base.m[cl]
 					if !ok {
 						old = e.get(base, cl, e.sorts[cl])
 					}
 					if t == old {
+						if ms.kept == nil {
+							ms.kept = map[string]int{}
+						}
+						ms.kept[cl]++
 						continue
 					}
 					acc := map[*Term]bool{}
